@@ -1232,3 +1232,96 @@ pub fn clocksat(args: &[String]) -> i32 {
     println!("{}", json!({"events": cx.events, "keys": keys.len()}));
     0
 }
+
+
+/// C14 story: every value is on the device only (flushed, no cache); then the medium loses its tail under the open store
+/// (the file is truncated in the middle of the data area, as a failing device or a shrunk volume would look): device reads
+/// of the extents behind the cut come back short.  A range query over all keys either FAILS or answers with every live
+/// key - judged by TraceStore.tla (RangeExact; the scans after the cut are marked `faulted`: an error is acceptable).
+pub fn scanstory(args: &[String]) -> i32 {
+    let o = Opts::parse(args);
+    let dir = o.get("dir").unwrap_or("/dev/shm").to_string();
+    std::fs::create_dir_all(&dir).ok();
+    crate::obs::set_cpus(o.num("cpus", 2));
+    crate::util::watchdog::start(o.num("watchdog", 60));
+    let seed: u64 = o.num("seed", std::process::id() as u64);
+    let mut rng = StdRng::seed_from_u64(seed);
+    let nkeys: usize = o.num("keys", 14);
+    let cfg = Cfg { pers: true, ttl: false, cache: false, fmt: 3, lim: -1, blocks: 128 };
+    let cfgj = |c: &Cfg| json!({"pers": c.pers, "ttl": c.ttl, "cache": c.cache, "fmt": c.fmt, "lim": c.lim});
+    let now = 1_000 * E9;
+    feoxdb::verif::set_now(now);
+    let path = format!("{dir}/scan_{}.feox", std::process::id());
+    let _ = std::fs::remove_file(&path);
+    let keys: Vec<Vec<u8>> = (0..nkeys).map(|i| format!("s-key{i:02}").into_bytes()).collect();
+    let store = build_store(&cfg, &path).expect("build store");
+    let mut vals = ValTable::new();
+    let mut evs: Vec<Value> = Vec::new();
+    evs.push(json!({"e": "reset", "cfg": cfgj(&cfg), "now": limbs(now), "overhead": FeoxStore::verif_record_overhead(),
+        "klen": keys.iter().map(|k| k.len()).collect::<Vec<_>>(), "post": post_state(&store, &keys)}));
+    for (i, k) in keys.iter().enumerate() {
+        let n = [300usize, 5000, 900, 9000, 60, 2500][rng.random_range(0..6)];
+        let val = vec![b'a' + (i % 26) as u8; n];
+        let mut ev = call_event("insert", i + 1);
+        let r = store.insert(k, &val);
+        ev["v"] = vals.val(&val);
+        ev["res"] = match &r { Ok(b) => res("bool", *b as i64, noval(), 0), Err(e) => res_err(e) };
+        ev["now"] = json!(limbs(now));
+        ev["post"] = post_state(&store, &keys);
+        evs.push(ev);
+    }
+    let scan = |store: &FeoxStore, vals: &mut ValTable, evs: &mut Vec<Value>, lim: usize, faulted: bool| {
+        let mut ev = call_event("range", 1);
+        let r = store.range_query(b"", &[0xffu8; 3], lim);
+        ev["lo"] = json!(1);
+        ev["hi"] = json!(keys.len());
+        ev["lim"] = json!(lim);
+        ev["faulted"] = json!(faulted);
+        match &r {
+            Ok(items) => {
+                let it: Vec<Value> = items.iter().map(|(kk, vv)| json!({"k": keys.iter().position(|x| x == kk).map(|i| i + 1).unwrap_or(0), "val": vals.val(vv)})).collect();
+                ev["items"] = json!(it);
+                ev["res"] = res("list", items.len() as i64, noval(), 0);
+            }
+            Err(e) => ev["res"] = res_err(e),
+        }
+        ev["now"] = json!(limbs(now));
+        ev["post"] = post_state(store, &keys);
+        evs.push(ev);
+        r.is_ok()
+    };
+    {
+        let mut ev = call_event("flush", 1);
+        let r = store.flush();
+        ev["res"] = match &r { Ok(()) => res("unit", 0, noval(), 0), Err(e) => res_err(e) };
+        ev["now"] = json!(limbs(now));
+        ev["post"] = post_state(&store, &keys);
+        evs.push(ev);
+    }
+    scan(&store, &mut vals, &mut evs, nkeys + 1, false);
+    // the medium loses its tail: cut at the extent of a key in the middle (or inside it)
+    let mut sectors: Vec<u64> = keys.iter().filter_map(|k| store.verif_record(k)).map(|r| r.sector).filter(|s| *s != 0).collect();
+    sectors.sort();
+    let mut answered = 0;
+    if sectors.len() >= 4 {
+        let cut_block = sectors[sectors.len() / 2] + rng.random_range(0..2);
+        let f = std::fs::OpenOptions::new().write(true).open(&path).expect("open device");
+        f.set_len(cut_block * 4096 + [0u64, 512, 100][rng.random_range(0..3)]).expect("truncate");
+        drop(f);
+        for lim in [nkeys + 1, nkeys / 2, 3] {
+            crate::util::watchdog::beat("scanstory: scan over the damaged medium");
+            if scan(&store, &mut vals, &mut evs, lim, true) { answered += 1; }
+        }
+    }
+    let out = o.req("out").to_string();
+    let mut f = std::io::BufWriter::new(std::fs::File::create(&out).expect("create out"));
+    for e in &evs {
+        writeln!(f, "{e}").unwrap();
+    }
+    f.flush().unwrap();
+    // the store cannot be closed cleanly on this medium: leave it to the process exit
+    std::mem::forget(store);
+    let _ = std::fs::remove_file(&path);
+    println!("{}", json!({"ok": true, "events": evs.len(), "answered_after_cut": answered}));
+    0
+}
